@@ -122,6 +122,10 @@ def generate(seed, tier, index):
     if thorough and rng.random() < 0.5:
         f2 = rng.choice(["eof", "reset", "junk_then_eof", "write_error"])
         steps.insert(rng.randint(pos + 1, len(steps)), {"op": "fault", "kind": f2, "cut": rng.random(), "victim": "by0"})
+    if rng.random() < 0.2:
+        # a bystander's connection has one transient send failure (it loses that one message and stays up): it is one of the
+        # "other connections" when the victim's ends, and keeps receiving device traffic
+        steps.insert(rng.randint(0, len(steps)), {"op": "hiccup", "who": "by0"})
     net = {"latency": rng.choice(["zero", "lan", "slow", "bursty"]), "frag": rng.choice(["whole", "fixed:7", "random", "coalesce"]),
            "hwm": rng.choice([0, 64, 65536])}
     return {"steps": steps, "nby": nby, "tty": tty, "libclient": libclient, "net": net, "seed": rng.randrange(1 << 30),
@@ -324,6 +328,7 @@ def execute(scen):
                     p.transport._conn_lost = True
                 sim.do(vanish)
 
+        hiccup = set()
         for st in scen["steps"]:
             if viol:
                 break
@@ -339,6 +344,10 @@ def execute(scen):
                 dev_blob()
             elif who and conns[who].dead:
                 continue
+            elif op == "hiccup":
+                conns[who].srv_transport.fail_next_write_keep = OSError(105, "sim: injected ENOBUFS in write()")
+                hiccup.add(who)
+                probes["transient_send_failure_on_a_bystander"] = probes.get("transient_send_failure_on_a_bystander", 0) + 1
             elif op == "getprops":
                 sim.do(conns[who].peer.send, '<getProperties version="1.7"/>\n')
             elif op == "enableblob":
@@ -384,6 +393,7 @@ def execute(scen):
                 if c.dead:
                     continue
                 rx = c.peer.text
+                spare = 1 if name in hiccup else 0  # (the one message whose write failed)
                 for i, val in enumerate(sent_text):
                     k = _count(rx, f">{val}<")
                     pol = policy_at.get(val, {}).get(name)
@@ -392,6 +402,9 @@ def execute(scen):
                         if k != 0:
                             viol.append({"clause": "C18.served", "detail": f"{name} (policy Only) received text update {val}; {ctx}", "facts": facts})
                             break
+                        continue
+                    if k == 0 and spare:
+                        spare -= 1
                         continue
                     if k != 1:
                         viol.append({"clause": "C18.served", "detail": f"surviving connection {name} received device update #{i} ({val}) {k} times; {ctx}", "facts": facts})
@@ -449,7 +462,8 @@ def execute(scen):
                         if "setBLOBVector" not in re.peer.text:
                             viol.append({"clause": "C18.fresh", "detail": f"a reconnecting peer that enabled BLOBs did not receive one; {ctx}", "facts": facts})
         if not viol:
-            bad = [e for e in stack.escaped() if "ConnectionResetError" not in e and "BrokenPipe" not in e and "Connection lost" not in e]
+            bad = [e for e in stack.escaped() if "ConnectionResetError" not in e and "BrokenPipe" not in e and "Connection lost" not in e
+                   and "injected ENOBUFS" not in e]
             if bad:
                 viol.append({"clause": "C18.server", "detail": f"escaped: {bad[:2]}; {ctx}", "facts": facts})
         for k in ("write_after_close", "rst_on_write_to_closed_peer", "bytes_dropped_receiver_gone"):
